@@ -512,6 +512,99 @@ def M5(ctx):
                     site_str(prog, fk, (other or cmps or [(0, None)])[0][0]))
 
 
+def N5(ctx):
+    """The infallible read-modify-write front-end (`Atomic::rmw`, behind swap and every fetch_*) always stores: the closure it
+    hands to the fallible path returns `Ok(..)` on every path, whatever the new value is (an RMW that leaves the value unchanged
+    is still a store in modification order and still releases)."""
+    prog = ctx.prog
+    fk = "sync::atomic::atomic::Atomic::<T>::rmw"
+    fn = need_fn(ctx, "N5", fk)
+    if fn is None:
+        return
+    seen = 0
+    bad = None
+    for ck in prog.closures_of(fk):
+        cb = prog.fns[ck].body
+        for d in cb.defs().get(0, []):
+            if d[0] == "stmt" and d[3]["k"] == "=" and d[3]["rv"]["k"] == "agg" and "Result" in str(d[3]["rv"].get("adt")):
+                seen += 1
+                if d[3]["rv"].get("variant") != "Ok":
+                    bad = site_str(prog, ck, d[1])
+    ctx.touch(fk, seen)
+    if bad:
+        ctx.bad("N5", fk, "the infallible RMW front-end reports failure (`Err`) to the runtime on some path: that RMW performs no store, "
+                "drops its release half and breaks the release sequence, although swap / fetch_* always store", bad, detail="always-stores")
+    elif seen:
+        ctx.ok("N5", fk, "the closure handed to try_rmw returns Ok(..) on every path", [fn.loc()])
+    else:
+        ctx.missing("N5", fk, "no Result-returning closure found in the infallible RMW front-end")
+
+
+def R1(ctx, scopes=("rt::atomic::State::", "<rt::vv::VersionVec as ", "rt::vv::VersionVec::")):
+    """Whole-container scans: a counting loop in the store-history / vector-clock code covers every element.  Each `a..b` range
+    built there starts at 0 and ends at the container's `len()` or, for a constant, at the length of the array the function
+    indexes.  (Loops written with iterators have no range and nothing to get wrong here.)"""
+    prog = ctx.prog
+    n = 0
+    import re as _re
+    for fk in sorted(prog.fns):
+        if not any(fk.startswith(sc) for sc in scopes) or prog.fn(fk) is None:
+            continue
+        body = prog.fns[fk].body
+        # lengths of the arrays this function indexes (from the evaluated field types `[T; N]`)
+        arr = set()
+        for blk in body.blocks:
+            for st in blk["stmts"]:
+                for pl in _places_of(st):
+                    for i, pr in enumerate(pl["p"]):
+                        if isinstance(pr, dict) and "idx" in pr and i > 0 and isinstance(pl["p"][i - 1], dict):
+                            m = _re.match(r"^\[.*; (\d+)\]$", str(pl["p"][i - 1].get("ty", "")))
+                            if m:
+                                arr.add(int(m.group(1)))
+        for b, blk in enumerate(body.blocks):
+            if blk["cleanup"]:
+                continue
+            for st in blk["stmts"]:
+                if not (st["k"] == "=" and st["rv"]["k"] == "agg" and st["rv"].get("adt") in ("std::ops::Range", "std::ops::RangeInclusive")):
+                    continue
+                ops = st["rv"]["ops"]
+                if len(ops) < 2:
+                    continue
+                n += 1
+                ctx.touch(fk, 1)
+                s_ = strip(body.expr_of_operand(ops[0]))
+                e_ = strip(body.expr_of_operand(ops[1]))
+                why = None
+                if not (s_[0] == "const" and s_[1].get("int") == 0):
+                    why = "starts at `%s` instead of 0" % canon(s_)[:60]
+                elif e_[0] == "const" and "int" in e_[1] and arr and any(e_[1]["int"] < a for a in arr):
+                    why = "ends at %d although the array it indexes has %d elements" % (e_[1]["int"], max(arr))
+                elif e_[0] in ("binop", "field") and any(x[0] == "binop" and x[1] in ("Sub", "SubWithOverflow", "Div", "Shr") for x in subexprs(e_)):
+                    why = "ends at `%s`, short of the container's length" % canon(e_)[:60]
+                if why:
+                    ctx.bad("R1", fk, "a scan over the %s does not cover every element: its range %s; the elements left out are never "
+                            "compared / joined" % ("vector clock" if "vv::" in fk else "store history", why), site_str(prog, fk, b), detail="partial-scan")
+                else:
+                    ctx.ok("R1", fk + ":bb%d" % b, "0..len", [site_str(prog, fk, b)])
+    return n
+
+
+def _places_of(st):
+    out = []
+
+    def walk(x):
+        if isinstance(x, dict):
+            if "l" in x and "p" in x and isinstance(x["p"], list):
+                out.append(x)
+            for v in x.values():
+                walk(v)
+        elif isinstance(x, list):
+            for v in x:
+                walk(v)
+    walk(st)
+    return out
+
+
 def M5b(ctx):
     """An RMW may read *every* store that is maximal in modification order (racing stores are unordered, each can be the one the
     RMW follows): the number of candidates is counted per store, not fixed."""
@@ -609,9 +702,15 @@ def M6(ctx):
                         return set(hit) if hit else {t_["otherwise"]}
                     return set(rest) - set(hit) if hit else set(rest)
             return None
-        return assume_all(a, assume_scenario(prog, others if others is not None else
+        comb = assume_all(a, assume_scenario(prog, others if others is not None else
                                              {"rt::atomic::FirstSeen::is_seen_by_current": False,
                                               "rt::atomic::FirstSeen::is_seen_before_yield": False}))
+
+        def value_of(body_, b_, e):
+            w = sc_atom(e)
+            return val.get(w) if w is not None else None
+        comb.value_of = value_of
+        return comb
     # reason (c) is the conjunction load-is-SeqCst && store_i.seq_cst && store_j.seq_cst: with (a), (b) false, every one of the
     # seven assignments falsifying the conjunction must leave the candidate alone
     reached = set()
